@@ -12,8 +12,9 @@
    hash || be(round) || be32(rindex) (voter.go signVote signs exactly this,
    the vote kind is not part of it).  uint64 wrap-around is outside the model.
 
-   Two switches describe repairs proposed in /verif/fixes (the harness detects
-   which behaviour the working tree has and passes it with every case):
+   Two switches describe two repairs that are in /repo since commits 0c3d6f7
+   and e1d256e (the harness measures which behaviour the working tree has and
+   passes it with every case; [fx_now] is the tree as it is):
      fx_distinct : the acceptance test also requires two different hashes among the signs
      fx_zero     : an evidence whose penalty ran is confirmed even if 0 was taken *)
 From Coq Require Export List NArith ZArith Bool.
@@ -24,6 +25,7 @@ Local Open Scope Z_scope.
 Definition addr := N.
 
 Record fixes := mkFix { fx_distinct : bool; fx_zero : bool }.
+Definition fx_now : fixes := mkFix true true.
 
 (* ---- ledger ------------------------------------------------------------ *)
 Record dlg := mkDlg { d_from : addr; d_stake : Z; d_token : Z }.
@@ -380,13 +382,17 @@ Definition process_evidences fx vf cfg ch parent hnum evs st :=
 (* header.SlashData *)
 Inductive slashdata := SDNone | SDGarbage | SDList (evs : list evidence).
 
+(* the height evidences are judged against: the block's own parent,
+   header.Number - 1 (not the local chain head; header numbers are >= 1) *)
+Definition parent_of (hnum : N) : N := N.pred hnum.
+
 (* Staking.slashing (block builder): result, the builder's new pending list, header.SlashData *)
-Definition slashing fx vf cfg ch parent hnum (pool : list evidence) (st : state)
+Definition slashing fx vf cfg ch hnum (pool : list evidence) (st : state)
   : option (result * list evidence * slashdata) :=
   match pool with
   | [] => Some (empty_result st, [], SDNone)
   | _ =>
-    match process_evidences fx vf cfg ch parent hnum pool st with
+    match process_evidences fx vf cfg ch (parent_of hnum) hnum pool st with
     | None => None
     | Some res =>
       Some (res, r_pending res, match r_confirmed res with [] => SDNone | c => SDList c end)
@@ -394,13 +400,13 @@ Definition slashing fx vf cfg ch parent hnum (pool : list evidence) (st : state)
   end.
 
 (* Staking.replaySlashing (block validator): bool = error returned *)
-Definition replay_slashing fx vf cfg ch parent hnum (sd : slashdata) (st : state) : option (result * bool) :=
+Definition replay_slashing fx vf cfg ch hnum (sd : slashdata) (st : state) : option (result * bool) :=
   match sd with
   | SDNone => Some (empty_result st, false)
   | SDGarbage => Some (empty_result st, true)
   | SDList [] => Some (empty_result st, true)
   | SDList evs =>
-    match process_evidences fx vf cfg ch parent hnum evs st with
+    match process_evidences fx vf cfg ch (parent_of hnum) hnum evs st with
     | None => None
     | Some res => Some (res, false)
     end
@@ -433,7 +439,8 @@ Record obs := mkObs {
 Record case := mkCase {
   k_fix : fixes; k_cfg : config; k_chain : chain;
   k_valid : list (N * N * N * N * N);    (* (pk, hash, round, rindex, sig) accepted by real BLS *)
-  k_parent : N; k_hnum : N; k_state : state; k_mode : mode; k_obs : obs
+  k_head : N;   (* number of the local chain head: must not matter *)
+  k_hnum : N; k_state : state; k_mode : mode; k_obs : obs
 }.
 
 Definition dlg_eqb (a b : dlg) : bool :=
@@ -492,12 +499,12 @@ Definition case_ok (c : case) : bool :=
   let o := k_obs c in
   match k_mode c with
   | MBuild pool =>
-    match slashing (k_fix c) vf (k_cfg c) (k_chain c) (k_parent c) (k_hnum c) pool (k_state c) with
+    match slashing (k_fix c) vf (k_cfg c) (k_chain c) (k_hnum c) pool (k_state c) with
     | None => o_panic o
     | Some (res, _, _) => negb (o_panic o) && negb (o_err o) && res_matches pool res o
     end
   | MReplay sd =>
-    match replay_slashing (k_fix c) vf (k_cfg c) (k_chain c) (k_parent c) (k_hnum c) sd (k_state c) with
+    match replay_slashing (k_fix c) vf (k_cfg c) (k_chain c) (k_hnum c) sd (k_state c) with
     | None => o_panic o
     | Some (res, err) =>
       negb (o_panic o) && Bool.eqb err (o_err o)
